@@ -191,3 +191,60 @@ func MustName(s string) Name {
 	}
 	return n
 }
+
+// ---------------------------------------------------------------------------------------------
+// Alternative spellings of names handed to the library. A name field of a record is presentation
+// text; the library accepts every legal spelling of an octet there (raw, \c, \DDD), not only the
+// one its own decoder prints. Spelling(seed) makes ToLib/MsgToLib write names with a spelling that
+// is a pure function of seed and of the order of the calls (seed 0: canonical, as EscName).
+
+var (
+	spellSeed uint64
+	spellCtr  uint64
+)
+
+// Spelling selects the spelling used by ToLib/MsgToLib from now on and returns a function that
+// restores the previous state. Not for concurrent use.
+func Spelling(seed uint64) (restore func()) {
+	ps, pc := spellSeed, spellCtr
+	spellSeed, spellCtr = seed, 0
+	return func() { spellSeed, spellCtr = ps, pc }
+}
+
+func mix(x uint64) uint64 {
+	x += 0x9e3779b97f4a7c15
+	x = (x ^ x>>30) * 0xbf58476d1ce4e5b9
+	x = (x ^ x>>27) * 0x94d049bb133111eb
+	return x ^ x>>31
+}
+
+func libName(n Name) string {
+	if spellSeed == 0 || len(n) == 0 {
+		return EscName(n)
+	}
+	spellCtr++
+	h := mix(spellSeed ^ mix(spellCtr))
+	if h&3 != 0 { // three names in four keep the canonical spelling
+		return EscName(n)
+	}
+	var sb strings.Builder
+	for _, l := range n {
+		for _, b := range l {
+			h = mix(h)
+			switch k := h & 7; {
+			case k == 0 || (k == 1 && (b == '.' || b == '\\')):
+				sb.WriteByte('\\')
+				sb.WriteByte('0' + b/100)
+				sb.WriteByte('0' + b/10%10)
+				sb.WriteByte('0' + b%10)
+			case k == 2 && !isDigit(b) && b > ' ' && b < 0x7f:
+				sb.WriteByte('\\')
+				sb.WriteByte(b)
+			default:
+				sb.WriteString(EscLabel([]byte{b}))
+			}
+		}
+		sb.WriteByte('.')
+	}
+	return sb.String()
+}
